@@ -1,4 +1,5 @@
 import DaskModel.Lemmas.ArrOverlapNdValue
+import DaskModel.Lemmas.ArrOverlapNdGather
 /-!
 # C26 extension — the N-d overlap as the product of the 1-d index maps
 
@@ -23,7 +24,12 @@ every chunk at least as long as the depth (the guard `ensure_minimum_chunksize` 
                                 any `g` of the window reaching `dl_i` back and `dr_i` ahead along axis `i`, cut at the
                                 ends of the array it is given), mapping it over the extended block and trimming gives,
                                 cell by cell, its values on the padded global array at the block's own cells;
-* `globalIdx_is_block_offset`   those cells are `pad_i + lo_i + c_i`.
+* `globalIdx_is_block_offset`   those cells are `pad_i + lo_i + c_i`;
+* `overlap_nd_gather`           **how the code really builds the block**: ONE `concatenate_shaped` of up to 3^k pieces — per
+                                axis the previous block's last `dl` cells, the block, the next block's first `dr` cells
+                                (`_expand_keys_around_center` + `fractional_slice`), the pieces being the product over the
+                                axes, so a corner takes a piece of its DIAGONAL neighbour — assembled cell by cell
+                                (`assemble`) IS the product block `ndOverlapBlock` (no size hypothesis).
 -/
 namespace Dask.C26x
 open Dask.ArrOverlap Dask.ArrOverlapNd
@@ -167,5 +173,26 @@ example :
       = (winSep (deps exAxes) g X (exAxes.map Axis.padded)).cell [2, 1] ∧
     globalIdx exAxes [1, 0] [0, 0] = [2, 1] ∧ localIdx exAxes [1, 0] [0, 0] = [1, 1] ∧
     (winSep (deps exAxes) g X (exAxes.map Axis.padded)).cell [2, 1] = some 304 := by decide
+
+/-- **The real task of an extended block** (`ArrayOverlapLayer._construct_graph`): `ndPieces` are the per-axis pieces,
+    `ndGather` places the piece at grid position `(p₁,…,p_k)` — the gather of `segs₁[p₁], …, segs_k[p_k]`, cut from the
+    neighbour `(b₁+p₁−1, …)`, a diagonal one when several `pᵢ ≠` centre — at the offsets `concatenate_shaped` computes
+    (`locate`).  The assembled array is the separable gather of the per-axis concatenations, which are the model's 1-d
+    extended blocks: the N-d overlap IS the product of the 1-d overlaps.  With `overlap_nd_block`: it is the
+    hyper-rectangle. -/
+theorem overlap_nd_gather {α : Type} (X : List (Option Nat) → α) (axes : List Axis) (bs : List Nat)
+    (segs : List (List (List (Option Nat)))) (hp : ndPieces axes bs = some segs) :
+    ndOverlapBlock axes bs = some (segs.map List.flatten) ∧
+    ndGather X segs = sepGather X (segs.map List.flatten) := by
+  refine ⟨?_, ndGather_eq X segs⟩
+  rw [ndPieces_flatten, hp]
+  rfl
+
+/-- corner block (1, 0) of `exAxes`: 2 × 3 pieces (upper neighbour's last row | rows; reflected pad | columns | right
+    neighbour's first column); the piece at grid (0, 2) comes from the diagonal neighbour -/
+example : ndPieces exAxes [1, 0] = some [[[some 1], [some 2, some 3, some 4]], [[some 0], [some 0, some 1], [some 2]]] := by
+  decide
+example : ndPieces exAxes [2, 0] = none ∧ ndPieces exAxes [0, 1] =
+    some [[[some 0, some 1], [some 2, some 3]], [[some 1], [some 2, some 3], [some 3]]] := by decide
 
 end Dask.C26x
